@@ -171,7 +171,8 @@ int main(int argc, char** argv)
     }
     catch(const sbe_error& e)
     {
-        reporter.error(e.what());
+        // the message is already formatted and can contain braces
+        reporter.error("{}", e.what());
         return 1;
     }
 
